@@ -966,7 +966,9 @@ class Prop:
                         yield dict(k="dump", typed=typed, data=data_kind, mapper=mp, via=via)
             # D93 (unchanged code): DictWrapper.serialize_mapper copies SHALLOWLY - a mutable value inside the
             # wrapped dict is still shared with the document that json.dump reads after the release
-            for via in ("save_stream", "to_dict_list"):
+            # (only save: what to_dict_list RETURNS may share the user's nested values by design - without a mapper it
+            #  hands out the data objects themselves - so that is not demanded of it)
+            for via in ("save_stream",):
                 yield dict(k="alias", typed=typed, data="dictwrapper_nested", mapper="dictwrapper", via=via)
             yield dict(k="dump", typed=typed, data="dictwrapper_nested", mapper="dictwrapper", via="save")
         # the owner calls an operation inside `with tree:` while a reader is already blocked on the tree lock
